@@ -105,13 +105,13 @@ func specLenByte(n int, nl int, k int) int {
 }
 
 //@ func getDataByteLength
-//@   property C02 C13
+//@   property C01 C02 C13
 //@   requires 0 <= size && size <= 1<<48
 //@   ensures  specKnownType(typ) ==> result == size * specWidth(typ)
 //@   ensures  !specKnownType(typ) ==> result == 0
 
 //@ func getHeaderBytes
-//@   property C02 C13
+//@   property C01 C02 C13
 //@   requires specKnownType(typ) && 0 <= size && size <= 1<<48
 //@   let n  = size * specWidth(typ)
 //@   let nl = specNLen(n)
@@ -175,6 +175,8 @@ func specTypeOf(ptype int, stype int) string {
 
 //@ func NewHSMSControlMessage
 //@   property C14 C11 C03
+//@   allocates_assumed 512
+//@   allocates_on_panic 512
 //@   requires len(header) <= 10
 //@   let h = cast(result, *ControlMessage).header
 //@   ensures typeis(result, *ControlMessage) && fresh(result) && fresh(h) && len(h) == 10
@@ -587,7 +589,9 @@ func specBoolByte(b bool) int {
 //@     invariant fresh(visited)
 
 //@ func NewIntNode
-//@   property C12 C13 C09
+//@   property C01 C12 C13 C09
+//@   allocates_assumed 32*len(values) + 512
+//@   allocates_on_panic 32*len(values) + 512
 //@   let okW = specIsIntW(byteSize)
 //@   let r = cast(result, *IntNode)
 //@   panics_if !okW
@@ -631,7 +635,9 @@ func specBoolByte(b bool) int {
 //@     invariant fresh(visited)
 
 //@ func NewUintNode
-//@   property C12 C13 C09
+//@   property C01 C12 C13 C09
+//@   allocates_assumed 32*len(values) + 512
+//@   allocates_on_panic 32*len(values) + 512
 //@   let okW = specIsIntW(byteSize)
 //@   let r = cast(result, *UintNode)
 //@   panics_if !okW
@@ -673,7 +679,9 @@ func specBoolByte(b bool) int {
 //@     invariant fresh(visited)
 
 //@ func NewBinaryNode
-//@   property C12 C13 C09
+//@   property C01 C12 C13 C09
+//@   allocates_assumed 32*len(values) + 512
+//@   allocates_on_panic 32*len(values) + 512
 //@   let r = cast(result, *BinaryNode)
 //@   panics_if len(values) > 16777215
 //@   panics_if exists i int :: 0 <= i && i < len(values) && !typeis(values[i], int) && !typeis(values[i], string)
@@ -707,7 +715,9 @@ func specBoolByte(b bool) int {
 //@     invariant fresh(visited)
 
 //@ func NewBooleanNode
-//@   property C12 C13 C09
+//@   property C01 C12 C13 C09
+//@   allocates_assumed 32*len(values) + 512
+//@   allocates_on_panic 32*len(values) + 512
 //@   let r = cast(result, *BooleanNode)
 //@   panics_if len(values) > 16777215
 //@   panics_if exists i int :: 0 <= i && i < len(values) && !typeis(values[i], bool) && !typeis(values[i], string)
@@ -736,7 +746,9 @@ func specBoolByte(b bool) int {
 //@     invariant forall p int :: 0 <= p && p < iterpos ==> node.value[p] < 128
 
 //@ func NewASCIINode
-//@   property C12 C13 C09
+//@   property C01 C12 C13 C09
+//@   allocates_assumed 32*len(str) + 512
+//@   allocates_on_panic 32*len(str) + 512
 //@   let r = cast(result, *ASCIINode)
 //@   panics_iff len(str) > 16777215 || (exists i int :: 0 <= i && i < len(str) && str[i] >= 128)
 //@   ensures typeis(result, *ASCIINode) && fresh(result) && r.isValue && r.value == str
@@ -776,7 +788,9 @@ func specBoolByte(b bool) int {
 //@     invariant fresh(visited)
 
 //@ func NewFloatNode
-//@   property C12 C13 C09
+//@   property C01 C12 C13 C09
+//@   allocates_assumed 32*len(values) + 512
+//@   allocates_on_panic 32*len(values) + 512
 //@   let okW = specIsFloatW(byteSize)
 //@   let mx = ite(byteSize == 4, maxfloat32(), maxfloat64())
 //@   let r = cast(result, *FloatNode)
@@ -835,7 +849,9 @@ func specBoolByte(b bool) int {
 //@     invariant fresh(foundVarName)
 
 //@ func NewListNode
-//@   property C12 C13 C09
+//@   property C01 C12 C13 C09
+//@   allocates_assumed 32*len(values) + 512
+//@   allocates_on_panic 32*len(values) + 512
 //@   maypanic
 //@   let r = cast(result, *ListNode)
 //@   panics_if len(values) > 16777215
@@ -868,6 +884,8 @@ func specBoolByte(b bool) int {
 
 //@ func NewHSMSDataMessage
 //@   property C12 C11 C03 C01
+//@   allocates_assumed 512
+//@   allocates_on_panic 512
 //@   panics_if !(waitBit == 0 || waitBit == 1)
 //@   panics_if sessionID == -1
 //@   panics_if nvars(dataItem) != 0
@@ -1038,3 +1056,86 @@ func specBoolByte(b bool) int {
 //@     invariant forall s string :: has(itervisited, s) && has(values, s) ==> nodeValues[node.variables[s]] == values[s]
 //@     invariant forall s string :: has(itervisited, s) && !has(values, s) ==> typeis(nodeValues[node.variables[s]], string) && sval(nodeValues[node.variables[s]]) == s
 //@     invariant forall p int :: 0 <= p && p < n && (forall s string :: has(itervisited, s) ==> node.variables[s] != p) ==> typeis(nodeValues[p], bool) && bval(nodeValues[p]) == node.values[p]
+
+//@ func (*ASCIINode).FillVariables
+//@   property C09 C15 C11 C12
+//@   let r = cast(result, *ASCIINode)
+//@   let v = values[node.variable.name]
+//@   let mentioned = !node.isValue && has(values, node.variable.name)
+//@   let fits = typeis(v, string) && node.variable.minLength <= len(sval(v)) && (node.variable.maxLength == -1 || len(sval(v)) <= node.variable.maxLength)
+//@   panics_if mentioned && !fits
+//@   panics_only_if mentioned && (!fits || len(sval(v)) > 16777215 || (exists i int :: 0 <= i && i < len(sval(v)) && sval(v)[i] >= 128))
+//@   ensures !mentioned ==> result == box(node, *ASCIINode)
+//@   ensures mentioned ==> typeis(result, *ASCIINode) && fresh(result) && r.isValue && r.value == sval(v)
+
+//@ func (*ASCIINode).Size
+//@   property C16 C15
+//@   ensures node.isValue ==> result == len(node.value)
+//@   ensures !node.isValue ==> result == -1
+
+//@ func (*ASCIINode).FillInStringLength
+//@   property C15
+//@   ensures node.isValue ==> min == -2 && max == -2
+//@   ensures !node.isValue ==> min == node.variable.minLength && max == node.variable.maxLength
+
+//@ func (*ASCIINode).Variables
+//@   property C16 C11
+//@   ensures fresh(result)
+//@   ensures node.isValue ==> len(result) == 0
+//@   ensures !node.isValue ==> len(result) == 1 && result[0] == node.variable.name
+
+//@ func (*DataMessage).FillVariables
+//@   property C18 C09 C11
+//@   maypanic
+//@   requires node.dataItem != nil
+//@   ensures fresh(result) && result.name == node.name && result.stream == node.stream && result.function == node.function
+//@   ensures result.waitBit == node.waitBit && result.direction == node.direction && result.sessionID == node.sessionID && result.systemBytes == node.systemBytes
+//@   ensures result.dataItem == fill_of(node.dataItem, ref(values))
+
+//@ iface ItemNode.FillVariables
+//@   property C09 C11
+//@   maypanic
+//@   defines result == fill_of(recv, ref(arg0))
+//@   ensures result != nil
+
+//@ func (*DataMessage).Variables
+//@   property C16 C11
+//@   requires node.dataItem != nil
+//@   ensures fresh(result) && len(result) == nvars(node.dataItem)
+
+//@ func getVariableNames
+//@   property C16
+//@   trusted
+//@   ensures fresh(result) && len(result) == len(variablePosition)
+//@   ensures forall i int :: 0 <= i && i < len(result) ==> has(variablePosition, result[i])
+//@   ensures forall i int, j int :: 0 <= i && i < j && j < len(result) ==> variablePosition[result[i]] < variablePosition[result[j]]
+
+//@ func (*IntNode).Variables
+//@   property C16 C11
+//@   ensures fresh(result) && len(result) == len(node.variables)
+//@   ensures forall i int :: 0 <= i && i < len(result) ==> has(node.variables, result[i])
+//@   ensures forall i int, j int :: 0 <= i && i < j && j < len(result) ==> node.variables[result[i]] < node.variables[result[j]]
+
+//@ func (*UintNode).Variables
+//@   property C16 C11
+//@   ensures fresh(result) && len(result) == len(node.variables)
+//@   ensures forall i int :: 0 <= i && i < len(result) ==> has(node.variables, result[i])
+//@   ensures forall i int, j int :: 0 <= i && i < j && j < len(result) ==> node.variables[result[i]] < node.variables[result[j]]
+
+//@ func (*FloatNode).Variables
+//@   property C16 C11
+//@   ensures fresh(result) && len(result) == len(node.variables)
+//@   ensures forall i int :: 0 <= i && i < len(result) ==> has(node.variables, result[i])
+//@   ensures forall i int, j int :: 0 <= i && i < j && j < len(result) ==> node.variables[result[i]] < node.variables[result[j]]
+
+//@ func (*BinaryNode).Variables
+//@   property C16 C11
+//@   ensures fresh(result) && len(result) == len(node.variables)
+//@   ensures forall i int :: 0 <= i && i < len(result) ==> has(node.variables, result[i])
+//@   ensures forall i int, j int :: 0 <= i && i < j && j < len(result) ==> node.variables[result[i]] < node.variables[result[j]]
+
+//@ func (*BooleanNode).Variables
+//@   property C16 C11
+//@   ensures fresh(result) && len(result) == len(node.variables)
+//@   ensures forall i int :: 0 <= i && i < len(result) ==> has(node.variables, result[i])
+//@   ensures forall i int, j int :: 0 <= i && i < j && j < len(result) ==> node.variables[result[i]] < node.variables[result[j]]
